@@ -28,17 +28,18 @@ EXPLANATION = (
     "classified; given that, a load value already seen can never take the Memory-3 branch. Not decided: steady-state cycle "
     "equality, junction configurations.")
 EXPLANATION += (' R-C04-6: in the multi-point path the representative sequence handed to the reversal detection and the load-step table indexed with the detected positions are both in order of appearance (order-class analysis; a key-sorted groupby/unique is a violation).')
+EXPLANATION += (' R-C04-7: the junction of the two passes is handled by _new_turns: the kept sample tail starts exactly at the last turning point found (or at 0), is cut from the analysed array, and the global-index offset uses head and tail before they are updated (shared with R-C01-2).')
 ASSUMPTIONS = ["the caller replays in pass 2 only loads of pass 1 (a fact about the caller's data)"]
 
 
 def run(ctx):
-    for r in (_r1, _r2, _r3, _r5, _r6):
+    for r in (_r1, _r2, _r3, _r5, _r6, _r7):
         ctx.attempt(r)
 
 
 def _r1(ctx):
     prog = ctx.prog
-    ctx.rule("R-C04-1", floor=4, what="second pass flushes; first pass uses the computed flag; zero prepended; flush from doubled sequence")
+    ctx.rule("R-C04-1", floor=6, what="second pass flushes; first pass uses the computed flag; zero prepended; flush from doubled sequence")
     f2 = prog.func(D + "process_hcm_second")
     c = [c for c in calls_in(f2.node) if isinstance(c.func, ast.Attribute) and is_self_attr(c.func, "process")]
     fl = next((k.value for k in c[0].keywords if k.arg == "flush"), c[0].args[1] if c and len(c[0].args) > 1 else None) if c else None
@@ -60,6 +61,22 @@ def _r1(ctx):
         ctx.holds(f1, c[0], "first pass: adjusted samples and the computed flush flag reach process()")
     else:
         ctx.violated(f1, c[0] if c else f1.node, "first HCM pass does not pass the adjusted samples and the computed flush flag on")
+    # the two entry points hand the caller's samples on as they are: samples are only ever dropped by find_turns
+    for fe, callee in ((f1, "_adjust_samples_and_flush_for_hcm_first_run"), (f2, "process")):
+        par = [q for q in fe.params if q != "self"][0]
+        cc = [c_ for c_ in calls_in(fe.node) if isinstance(c_.func, ast.Attribute) and is_self_attr(c_.func, callee)]
+        redefs = [s_ for s_ in walk_function(fe.node) if isinstance(s_, (ast.Assign, ast.AugAssign)) and
+                  any(isinstance(t, ast.Name) and t.id == par for t in (s_.targets if isinstance(s_, ast.Assign) else [s_.target]))
+                  and not (isinstance(s_, ast.Assign) and isinstance(s_.value, ast.Call) and any(x is s_.value for x in cc))
+                  and cc and s_.lineno < cc[0].lineno]
+        direct = bool(cc) and cc[0].args and isinstance(cc[0].args[0], ast.Name) and cc[0].args[0].id == par
+        if direct and not redefs:
+            ctx.holds(fe, cc[0], "%s passes the caller's samples unchanged to %s" % (fe.name, callee))
+        else:
+            ctx.violated(fe, redefs[0] if redefs else (cc[0] if cc else fe.node), "%s alters the samples (%s) before they reach %s: "
+                         "dropping or re-ordering samples outside the turning-point detection changes the junction of the passes"
+                         % (fe.name, norm_text(redefs[0]) if redefs else "argument is not the parameter", callee),
+                         text="samples altered in " + fe.name)
     fa = prog.func(D + "_adjust_samples_and_flush_for_hcm_first_run")
     zeros = [c for c in calls_in(fa.node) if call_name(c) == "np.concatenate" and c.args and isinstance(c.args[0], ast.List) and
              isinstance(c.args[0].elts[0], ast.List) and [const_value(x) for x in c.args[0].elts[0].elts] == [0]]
@@ -156,6 +173,15 @@ def _r2(ctx):
         ctx.holds(r, st[0], "recorder appends the pass number once per recorded row")
     else:
         ctx.violated(r, st[0] if st else r.node, "recorder does not append the pass number once per recorded hysteresis row")
+
+
+def _r7(ctx):
+    """The two passes are two chunks of one signal: what joins them is the sample tail kept by _new_turns.  It must start at
+    the last turning point found and the index offset must use the state before the update (analysis shared with R-C01-2);
+    otherwise non-reversal samples at the junction change what is counted."""
+    ctx.rule("R-C04-7", floor=4, what="junction of the passes: sample tail from the last turning point, offsets from pre-update state (shared with R-C01-2)")
+    from .c01 import _r2_new_turns_core
+    _r2_new_turns_core(ctx, ctx.prog)
 
 
 def _r6(ctx):
@@ -369,6 +395,26 @@ C = "FKMNonlinearDetector."
 
 def variants():
     out = []
+
+    def prefilter(tree):
+        f = find_func(tree, "FKMNonlinearDetector.process_hcm_first")
+        for i, st in enumerate(f.body):
+            if isinstance(st, ast.Assign) and "adjust_samples_and_flush" in ast.unparse(st.value):
+                f.body.insert(i, parse_stmt("samples = np.asarray(samples)[np.asarray(samples) != np.roll(np.asarray(samples), -1)]"))
+                return True
+        return False
+    out.append(witness("first pass drops repeated samples before the adjustment", FN, prefilter, "R-C04-1"))
+
+    def tail_last_two(tree):
+        f = find_func(tree, "AbstractDetector._new_turns")
+        for i, st in enumerate(f.body):
+            if isinstance(st, ast.Assign) and is_self_attr(st.targets[0], "_sample_tail"):
+                lo = st.value.slice.lower
+                arr = ast.unparse(st.value.value)
+                f.body.insert(i, parse_stmt("%s = max(%s, len(%s) - 2)" % (ast.unparse(lo), ast.unparse(lo), arr)))
+                return True
+        return False
+    out.append(witness("sample tail truncated to the last two samples", "src/pylife/stress/rainflow/general.py", tail_last_two, "R-C04-7"))
 
     def lookahead_without_zero(tree):
         f = find_func(tree, "FKMNonlinearDetector._adjust_samples_and_flush_for_hcm_first_run")
